@@ -15,7 +15,9 @@ class Harness:
         self.name = name
         self.fn = fn
         self.bounds = {'quick': dict(quick or {}), 'thorough': dict(thorough if thorough is not None else (quick or {}))}
-        self.timeout = {'quick': timeout[0], 'thorough': timeout[1]}
+        # declared budgets were tuned on an idle 16-core host at ~1.3x the measured exhaustion time: keep a wide margin for
+        # slower or loaded hosts (a budget is only an upper bound; exploration stops as soon as the tree is exhausted)
+        self.timeout = {'quick': timeout[0] * 2.5, 'thorough': timeout[1] * 1.5}
         self.per_path = per_path
         self.float_model = float_model
         self.goals = tuple(goals)
